@@ -65,7 +65,19 @@ def run_property(pid, tier, seed, jobs):
         pool = ctx.Pool(min(jobs, len(chunks)), maxtasksperchild=plan.get('maxtasks'))
         results = pool.imap_unordered(_worker, work)
     collected = {}
-    for idx, res, err in results:
+    limit = float(os.environ.get('VT_CHUNK_TIMEOUT') or 3600)
+    it = iter(results)
+    while True:
+        try:
+            idx, res, err = it.next(timeout=limit) if pool else next(it)
+        except StopIteration:
+            break
+        except mp.TimeoutError:
+            errors.append('no chunk finished within %.0f s (a library call does not terminate?); unfinished chunks: %r'
+                          % (limit, [c for i, c in enumerate(chunks) if i not in collected][:3]))
+            pool.terminate()
+            pool = None
+            break
         if err:
             errors.append('chunk %d (%r): %s' % (idx, chunks[idx], err))
         else:
